@@ -24,7 +24,10 @@ package main
 
 import (
 	"encoding/hex"
+	"encoding/json"
 	"fmt"
+	"os"
+	"runtime"
 	"sort"
 	"strconv"
 	"strings"
@@ -266,6 +269,7 @@ func genLine(r *mon.Rng, id string) gline {
 // ---- witness
 
 type witness struct {
+	ComboIdx  int    `json:"combo_index"`
 	Combo     combo  `json:"levels_in_config"`
 	Batch     int    `json:"batch"`
 	Index     int    `json:"index_in_batch"`
@@ -283,6 +287,27 @@ type witness struct {
 }
 
 func main() {
+	replayCombo, replayBatch := -1, -1
+	if p := os.Getenv("VERIF_REPLAY"); p != "" {
+		// a replay file names seed, tier, level combination and batch; the lines are
+		// regenerated (the table is driven from its first batch: the bad-metrics report is cumulative)
+		var rp struct {
+			Seed   int64  `json:"seed"`
+			Tier   string `json:"tier"`
+			Replay struct {
+				Combo *int `json:"combo_index"`
+				Batch *int `json:"batch"`
+			} `json:"replay"`
+		}
+		b, err := os.ReadFile(p)
+		if err != nil || json.Unmarshal(b, &rp) != nil || rp.Replay.Combo == nil || rp.Replay.Batch == nil {
+			fmt.Println("C02: cannot use replay file", p)
+			os.Exit(2)
+		}
+		os.Setenv("VERIF_SEED", fmt.Sprint(rp.Seed))
+		os.Setenv("VERIF_TIER", rp.Tier)
+		replayCombo, replayBatch = *rp.Replay.Combo, *rp.Replay.Batch
+	}
 	res := mon.NewResult("C02")
 	res.Rule = "lines = grammar-generated name kind x value kind x timestamp kind x whitespace layout, a quarter of them mutated by one byte-level edit (NUL, 0x80-0xff, ';', '=', '_is_', blank, tab, dot, delete), dispatched into real tables for all 3x2 level combinations written in the configuration plus three combinations with an option omitted; non-trivial = the line is not the plain 'dotted-name number timestamp' form; distinct = (level combination, name kind, value kind, timestamp kind, layout, mutation kind, verdict)"
 	res.Assume("carbon20.ValidatePacket (go-metrics20, a dependency outside the repository) is the reference for validity once it is given the right levels; the harness maps the configuration words to levels itself")
@@ -298,10 +323,12 @@ func main() {
 	disagree := map[string]int{}
 	var disagreeSamples []map[string]interface{}
 	seenDis := map[string]bool{}
-	idCounter := 0
 
 	for ci, cb := range combos {
-		if !mon.Mine(ci) {
+		if replayCombo >= 0 && ci != replayCombo {
+			continue
+		}
+		if replayCombo < 0 && !mon.Mine(ci) {
 			continue
 		}
 		lvlL, lvlM := legacyLevel(cb.Legacy), m20Level(cb.M20)
@@ -326,7 +353,7 @@ func main() {
 
 		lastRejected := map[string]string{} // bad-metrics key -> text of the last rejected line (table lifetime)
 		total := perCombo * cb.Share / 4
-		for b := 0; b*batchSize < total; b++ {
+		for b := 0; b*batchSize < total && (replayBatch < 0 || b <= replayBatch); b++ {
 			n := batchSize
 			if (b+1)*batchSize > total {
 				n = total - b*batchSize
@@ -338,8 +365,7 @@ func main() {
 			validKeys := map[string]string{}
 			validInBatch := 0
 			for i := 0; i < n; i++ {
-				idCounter++
-				id := "i" + strconv.FormatInt(int64(idCounter), 36) + "z"
+				id := "i" + strconv.FormatInt(int64(ci), 36) + "b" + strconv.FormatInt(int64(b), 36) + "n" + strconv.FormatInt(int64(i), 36) + "z" // unique per table, stable under replay
 				g := genLine(r, id)
 				line := g.Line
 				// oracles (on private copies)
@@ -356,7 +382,7 @@ func main() {
 					if libErr != nil {
 						we = libErr.Error()
 					}
-					return witness{cb, b, i, strconv.Quote(string(line)), hex.EncodeToString(line), libValid, we, doc.Valid, doc.Confident, doc.Class, int(fwd), dIn, dInv, note}
+					return witness{ci, cb, b, i, strconv.Quote(string(line)), hex.EncodeToString(line), libValid, we, doc.Valid, doc.Confident, doc.Class, int(fwd), dIn, dInv, note}
 				}
 				nLines++
 				if dIn != 1 {
@@ -427,16 +453,16 @@ func main() {
 			agg.AddMaybe(sent, 1, 1600000000)
 			nSentinel++
 			want := aggBase + int64(validInBatch) + 1
-			ok := false
-			for step := 0; step < 20000; step++ {
-				if mon.Counter(aggKey) >= want {
-					ok = true
-					break
+			// bounded steps: 2000 yields, then 4000 half-millisecond sleeps (> 10^4 x the normal latency)
+			for step := 0; step < 6000 && mon.Counter(aggKey) < want; step++ {
+				if step < 2000 {
+					runtime.Gosched()
+				} else {
+					time.Sleep(500 * time.Microsecond)
 				}
-				time.Sleep(time.Duration(1+step/100) * 100 * time.Microsecond)
 			}
-			if got := mon.Counter(aggKey); !ok || got != want {
-				res.Violate("agg-count", fmt.Sprintf("levels %s batch %d: %d valid lines dispatched, the match-all aggregation counted %d inputs", cb, b, validInBatch, got-aggBase-1), map[string]interface{}{"levels": cb, "batch": b, "stream": 200 + ci})
+			if got := mon.Counter(aggKey); got != want {
+				res.Violate("agg-count", fmt.Sprintf("levels %s batch %d: %d valid lines dispatched, the match-all aggregation counted %d inputs", cb, b, validInBatch, got-aggBase-1), map[string]interface{}{"combo_index": ci, "levels": cb, "batch": b, "stream": 200 + ci})
 			}
 
 			// bad-metrics report (asynchronous: bounded retries)
@@ -455,16 +481,16 @@ func main() {
 					switch {
 					case !found && k == "":
 						problems = append(problems, "bad-missing-unparsed")
-						probW = map[string]interface{}{"levels": cb, "batch": b, "name": "(none: the line could not be parsed)", "rejected_line": strconv.Quote(wantLine), "records": len(recs)}
+						probW = map[string]interface{}{"combo_index": ci, "levels": cb, "batch": b, "name": "(none: the line could not be parsed)", "rejected_line": strconv.Quote(wantLine), "records": len(recs)}
 					case !found:
 						problems = append(problems, "bad-missing")
-						probW = map[string]interface{}{"levels": cb, "batch": b, "name": strconv.Quote(k), "rejected_line": strconv.Quote(wantLine), "records": len(recs)}
+						probW = map[string]interface{}{"combo_index": ci, "levels": cb, "batch": b, "name": strconv.Quote(k), "rejected_line": strconv.Quote(wantLine), "records": len(recs)}
 					case recs[i].LastMsg != wantLine:
 						problems = append(problems, "bad-wrong-text")
-						probW = map[string]interface{}{"levels": cb, "batch": b, "name": strconv.Quote(k), "rejected_line": strconv.Quote(wantLine), "reported_text": strconv.Quote(recs[i].LastMsg)}
+						probW = map[string]interface{}{"combo_index": ci, "levels": cb, "batch": b, "name": strconv.Quote(k), "rejected_line": strconv.Quote(wantLine), "reported_text": strconv.Quote(recs[i].LastMsg)}
 					case recs[i].LastErr == "":
 						problems = append(problems, "bad-empty-reason")
-						probW = map[string]interface{}{"levels": cb, "batch": b, "name": strconv.Quote(k), "rejected_line": strconv.Quote(wantLine)}
+						probW = map[string]interface{}{"combo_index": ci, "levels": cb, "batch": b, "name": strconv.Quote(k), "rejected_line": strconv.Quote(wantLine)}
 					}
 				}
 				if len(problems) == 0 {
@@ -472,7 +498,7 @@ func main() {
 					for k, vl := range validKeys {
 						if i, found := byKey[k]; found && recs[i].LastMsg == vl && lastRejected[k] != vl {
 							problems = append(problems, "valid-reported-bad")
-							probW = map[string]interface{}{"levels": cb, "batch": b, "name": strconv.Quote(k), "line": strconv.Quote(vl), "reason": recs[i].LastErr}
+							probW = map[string]interface{}{"combo_index": ci, "levels": cb, "batch": b, "name": strconv.Quote(k), "line": strconv.Quote(vl), "reason": recs[i].LastErr}
 						}
 					}
 					break
@@ -500,6 +526,10 @@ func main() {
 	res.Set("doc_class_counts", classCount)
 	res.Set("oracle_disagreements", disagree)
 	res.Set("oracle_disagreement_samples", disagreeSamples)
+	if replayCombo >= 0 {
+		res.Write()
+		return
+	}
 	wantLines := 0
 	for _, cb := range combos {
 		wantLines += perCombo * cb.Share / 4
